@@ -66,6 +66,10 @@ def render(model):
             for kk in sorted(wm["env"]):
                 lines.append("%s = %s" % (kk, wm["env"][kk]))
             lines.append("")
+    for pl in model.get("plugins") or []:
+        lines += ["[plugin:%s]" % pl["name"],
+                  "use = circus.plugins.statsd.FullStats",
+                  "priority = %d" % pl["priority"], ""]
     return "\n".join(lines)
 
 
@@ -100,6 +104,9 @@ def execute(case):
         h.start()
         history = [copy.deepcopy(model)]
         undo = []
+        plug_pids = dict(('plugin:%s' % pl["name"],
+                          sorted(w.eff_live('plugin:%s' % pl["name"])))
+                         for pl in model.get("plugins") or [])
         for ed in case["edits"]:
             if viols or w.dead or w.exited:
                 break
@@ -159,8 +166,10 @@ def execute(case):
                 break
             # ---- same watchers as the file
             names = sorted(model["watchers"])
+            plugs = ['plugin:%s' % pl["name"]
+                     for pl in model.get("plugins") or []]
             got = h.watcher_names() or []
-            if sorted(got) != sorted(n.lower() for n in names):
+            if sorted(got) != sorted(n.lower() for n in names + plugs):
                 viols.append(Violation(
                     'C12:watcher-set:%s' % kind,
                     'file defines %r, daemon lists %r (%s)' % (
@@ -197,6 +206,16 @@ def execute(case):
                         'watcher %s %s: file says numprocesses=%d, %d '
                         'workers run' % (n, where, np_model, len(live))))
             # ---- disturbance
+            for pn in plugs:
+                classes.add('with-plugin-section')
+                if sorted(w.eff_live(pn)) != plug_pids.get(pn):
+                    viols.append(Violation(
+                        'C12:unchanged-plugin-disturbed:%s' % kind,
+                        'plugin section %s is never edited, yet after %r '
+                        'its pids went %r -> %r' % (
+                            pn, ed, plug_pids.get(pn),
+                            sorted(w.eff_live(pn)))))
+                    plug_pids[pn] = sorted(w.eff_live(pn))
             for n in names:
                 if n not in before["watchers"]:
                     continue
@@ -264,6 +283,9 @@ def _strategy():
         order = names[:n0]
         model = {"order": list(order),
                  "watchers": dict((n, draw(spec())) for n in order)}
+        if draw(st.integers(0, 3)) == 0:
+            model["plugins"] = [{"name": "stats",
+                                 "priority": draw(st.sampled_from([1, 5]))}]
         edits = []
         for _ in range(draw(st.integers(1, 6))):
             kind = draw(st.sampled_from(['set', 'set', 'set', 'set', 'add',
